@@ -119,6 +119,7 @@ def run_one(ck, prog):
                 ck.ob("C05.4", "order|run<store<flag", c3.cfg.dominates(user[0], sb) and c3.cfg.dominates(sb, cas[0].bb) and sb != cas[0].bb, fn=T.CLOSURE,
                       detail="the result must be written after the user function returned and before the hand-over flag is flipped")
             ck.ob("C05.4", "flag-release", is_release(cas[0].success_order), fn=T.CLOSURE, detail=f"the hand-over CAS publishes the result; ordering {cas[0].success_order}")
+    T.check_tls_outlives_user_fn(ck, prog, "C05.4")
     cg = prog.callgraph()
     writers = sorted(cg.callers.get(T.TSM + "value_mut", ()))
     ck.ob("C05.4", "slot-writers", writers == [T.CLOSURE], detail=f"only the thread's closure may take the mutable slot pointer; callers of Tsm::value_mut: {writers}")
